@@ -3,7 +3,8 @@
    `matches` (EntityMatcher::captures): the regex crate is an oracle. *)
 From Coq Require Import List NArith Bool Arith Permutation Sorted.
 From Okv Require Import Model.ImpConfig Model.ImpConfigSpec Model.ImpExtract Model.ImpExtractSpec
-     Model.ImpSingleEntry Proofs.ImpConfigProofs Proofs.ImpExtractProofs Proofs.ImpExamples.
+     Model.ImpSingleEntry Proofs.ImpConfigProofs Proofs.ImpExtractProofs.
+From Okv Require Proofs.ImpExamples.   (* the hypotheses are satisfiable *)
 Import ListNotations.
 
 (* ConfigSet::select = to_entry of the left fold of merge over the documents whose path occurs in
